@@ -38,6 +38,8 @@ def cases(seed, tier):
             "tiny-radius", "edge-straddle", "repeat-radius", "antipodal", "corner-tangent"]
     for i in range(n):
         yield {"family": fams[i % len(fams)], "sub": int(rng.integers(0, 2**31))}
+    for i in range(1 if tier == "quick" else 3):
+        yield {"family": "big-pair-file", "sub": int(rng.integers(0, 2**31))}
 
 
 # ---------------------------------------------------------------------------------------------------------------
@@ -307,7 +309,55 @@ def pairset(m1, m2):
     return set(zip(np.asarray(m1).tolist(), np.asarray(m2).tolist()))
 
 
+def run_big_pair_file(case):
+    """More than a million pairs written to a pair file and read back.  Every line of the file has the same length,
+    16 bytes ("iiiiii jjjjjj 0" + newline: both indices have six digits, every separation is exactly 0), so every
+    power-of-two offset up to the file size - whatever block size a reader counts or parses in - falls on a line end."""
+    from esutil import htm
+    rng = np.random.default_rng(case["sub"])
+    nlat = 100000
+    i = np.arange(nlat)
+    lra, ldec = (i % 1000) * 0.36, -80.0 + (i // 1000) * 1.6            # a lattice 0.36 x 1.6 deg: nothing within reach
+    d1, d2 = int(rng.integers(1030, 1120)), int(rng.integers(1020, 1060))
+    pra, pdec = float(rng.uniform(0, 360)), float(rng.uniform(84, 88))      # the duplicated position, far from the lattice
+    ra1, dec1 = np.concatenate([lra, np.full(d1, pra)]), np.concatenate([ldec, np.full(d1, pdec)])
+    ra2, dec2 = np.concatenate([lra + 0.18, np.full(d2, pra)]), np.concatenate([ldec + 0.8, np.full(d2, pdec)])
+    depth = int(rng.integers(8, 12))
+    fname = os.path.join(workdir(), "c12_bigpairs_%d.txt" % case["_i"])
+    wit = {"n1": int(ra1.size), "n2": int(ra2.size), "pairs_expected": d1 * d2, "depth": depth}
+    COL.sample(dict(wit, family="big-pair-file"), limit=2)
+    h = htm.HTM(depth)
+    n, e = probe.attempt(h.match, ra1, dec1, ra2, dec2, 1.0 / 3600.0, maxmatch=0, file=fname)
+    if e is not None:
+        COL.violation("C12.routes", "match(file=) raised %s: %s" % (type(e).__name__, str(e)[:140]), wit)
+        return
+    size = os.path.getsize(fname)
+    pairs, e = probe.attempt(htm.read_pairs, fname)
+    bad = None
+    if e is not None:
+        bad = "read_pairs raised %s: %s" % (type(e).__name__, str(e)[:140])
+    elif n != d1 * d2 or size != 16 * d1 * d2:
+        bad = "match(file=) reports %r pairs in a file of %d bytes; %d pairs of 16 bytes were expected" % (n, size, d1 * d2)
+    elif pairs.size != d1 * d2:
+        bad = "read_pairs returns %d pairs from a file holding %d (%d bytes)" % (pairs.size, d1 * d2, size)
+    else:
+        m1, m2 = np.asarray(pairs["i1"], dtype="i8"), np.asarray(pairs["i2"], dtype="i8")
+        code = np.sort((m1 - nlat) * d2 + (m2 - nlat))
+        if (m1 < nlat).any() or (m2 < nlat).any() or not np.array_equal(code, np.arange(d1 * d2)) or np.any(np.asarray(pairs["d12"]) != 0):
+            bad = "the pairs read back are not the %d x %d pairs of the duplicated position at separation 0" % (d1, d2)
+    if bad:
+        COL.violation("C12.routes", bad, wit, key="big-pair-file")
+    else:
+        COL.ok("C12.routes", ("big-pair-file", depth, size >> 20))
+    try:
+        os.unlink(fname)
+    except OSError:
+        pass
+
+
 def run_case(case):
+    if case["family"] == "big-pair-file":
+        return run_big_pair_file(case)
     from esutil import htm
     rng = np.random.default_rng(case["sub"])
     fam = case["family"]
